@@ -312,7 +312,7 @@ pub fn sched_request(sg: &SchedGen, log: &[String]) -> String {
     format!("sched.run {} {}", show_cfg(&sg.g), show_list(&labels, |x| x.clone()))
 }
 
-pub const CLEAN: &str = "- ; - ; - ; - ; - ; - ; - ; ok ; ok ; ok ; ok ; ok ; ok ; ok ; ok";
+pub const CLEAN: &str = "- ; - ; - ; - ; - ; - ; - ; ok ; ok ; ok ; ok ; ok ; ok ; ok ; ok ; ok";
 
 pub fn gen_sched_case(rng: &mut Rng, idx: usize) -> Case {
     sched_case(rng, idx, false)
